@@ -33,6 +33,10 @@ pub struct Dc {
     pub grid_rendition: bool,
     /// D7: tab stops not compared
     pub tabstops: bool,
+    /// D12: after `CSI r` (region removed) the cursor may stay or be homed
+    pub cursor_home_alt: bool,
+    /// D13: DECRC may keep the DECTCEM mode bit or bring it in line with the restored visibility
+    pub dectcem_alt: Option<bool>,
     pub why: Vec<&'static str>,
 }
 
@@ -213,6 +217,7 @@ impl Model {
     fn set_margins(&mut self, t: P, b: P) {
         if (t.is_none() || t == Some(0)) && b.is_none() {
             self.s.margins = None;
+            self.dc.cursor_home_alt = true;
             return;
         }
         let (ctop, cbot) = self.region();
@@ -460,6 +465,8 @@ impl Model {
             self.set_mode_bit(*m, true);
         }
         if ml.contains(&DECCOLM) {
+            // what DECCOLM does to the tab stops is C18's business (stops-frame), not C12's
+            self.dc.tabstops = true;
             if self.s.saved_columns.is_some() {
                 self.dc.saved_columns = true;
             }
@@ -491,6 +498,7 @@ impl Model {
             self.set_mode_bit(*m, false);
         }
         if ml.contains(&DECCOLM) {
+            self.dc.tabstops = true;
             if self.c() == 132 {
                 if let Some(w) = self.s.saved_columns {
                     self.resize(self.l(), w);
@@ -541,6 +549,7 @@ impl Model {
                     self.set_mode_bit(DECAWM, true);
                 }
                 self.s.cursor = sp.cursor;
+                self.dc.dectcem_alt = Some(!self.s.cursor.hidden);
                 let c = self.c();
                 if self.s.cursor.x == c {
                     self.dc.cursor_x_alt = Some(c);
@@ -575,6 +584,16 @@ impl Model {
 
     // ------------------------------------------------------------ dispatch
     pub fn apply(&mut self, op: &Op) {
+        let before = (self.s.cursor.x, self.s.cursor.y);
+        let had_alt = self.dc.cursor_home_alt;
+        self.apply_inner(op);
+        if had_alt && (self.s.cursor.x, self.s.cursor.y) != before {
+            // a later operation placed the cursor: the homing alternative of an earlier `CSI r` is over
+            self.dc.cursor_home_alt = false;
+        }
+    }
+
+    fn apply_inner(&mut self, op: &Op) {
         use Op::*;
         match op {
             Draw(t) => self.draw(t),
@@ -807,6 +826,9 @@ pub fn compare(exp: &Snap, obs: &Snap, dc: &Dc, comps: &[Comp]) -> Vec<(Comp, St
                     continue;
                 }
                 let xok = exp.cursor.x == obs.cursor.x || dc.cursor_x_alt == Some(obs.cursor.x);
+                if dc.cursor_home_alt && obs.cursor.x == 0 && obs.cursor.y == 0 {
+                    continue;
+                }
                 if !xok || exp.cursor.y != obs.cursor.y {
                     out.push((
                         *comp,
@@ -839,6 +861,17 @@ pub fn compare(exp: &Snap, obs: &Snap, dc: &Dc, comps: &[Comp]) -> Vec<(Comp, St
                 }
             }
             Comp::Modes => {
+                if let Some(visible) = dc.dectcem_alt {
+                    // accepted as well: DECTCEM membership equal to the restored visibility
+                    let mut alt: Vec<u32> = exp.modes.iter().cloned().filter(|m| *m != DECTCEM).collect();
+                    if visible {
+                        alt.push(DECTCEM);
+                        alt.sort_unstable();
+                    }
+                    if alt == obs.modes {
+                        continue;
+                    }
+                }
                 if exp.modes != obs.modes {
                     out.push((*comp, format!("modes expected {:?} observed {:?}", exp.modes, obs.modes)));
                 }
